@@ -260,7 +260,8 @@ def behOf (stream : Bool) (layer : Nat) (c : Char) : Option InterceptClient.Inte
 def driveC17 (args : List String) : String :=
   match args with
   | kind :: base :: layers :: rest =>
-    let copts := match rest with | [c] => ((c.drop 6).toString.toNat?.getD 0) | _ => 0
+    let copts := match rest with | c :: _ => ((c.drop 6).toString.toNat?.getD 0) | _ => 0
+    let slash := match rest with | [_, sl] => sl != "slash=0" | _ => true
     let stream := kind == "stream"
     let baseKind := (base.drop 5).toString
     -- "grpcf" / "recf": the base is reached through a wrapper that is not the library's own (no interceptors of its own)
@@ -273,7 +274,8 @@ def driveC17 (args : List String) : String :=
       let u := behOf false i (cs.getD 0 '-')
       let s := behOf true i (cs.getD 1 '-')
       (InterceptClient.intercept ch u s, i + 1)) (b, 0)
-    let mname := if stream then "/grpchantesting.TestService/BidiStream" else "/grpchantesting.TestService/Unary"
+    let mname0 := if stream then "/grpchantesting.TestService/BidiStream" else "/grpchantesting.TestService/Unary"
+    let mname := if slash then mname0 else (mname0.drop 1).toString
     let (evs, res) := if stream then InterceptClient.newStream ch ⟨0, copts⟩ else InterceptClient.invoke ch ⟨0, copts⟩
     let showEv : InterceptClient.Ev → Option String
       | .int st l cc c =>
